@@ -2,10 +2,13 @@
 C08 — source text is tokenised exactly per the documented lexical rules.
 `Spec/Lex.lean` is the statement of the rules (`scan`); the correspondence run
 compares the implementation with `scan` on every case, and the model with both.
-(first layer: the specification is total — it never "panics" — and the
-characteristic lemmas that connect it to the prose)
+`C08_tokenize_eq_spec` proves, for every source text, that the character state
+machine of `tokenize.rs` (model `Tokenize.tokenize`, index bookkeeping and
+source slices included) computes exactly `scan` — tokens with kinds, payloads
+and byte positions, or the same `Lex(index, char?)`.
 -/
 import KikiVerif.Spec.Lex
+import KikiVerif.Proofs.Tokenize
 
 namespace KikiVerif.C08
 open KikiVerif KikiVerif.Spec KikiVerif.Text
@@ -54,6 +57,19 @@ theorem C08_double_colon (r : Str) (i : Nat) :
   simp [blen, clen]
   rfl
 
+/-- **C08**: for every source text the tokenizer returns exactly what the documented rules prescribe -/
+theorem C08_tokenize_eq_spec (src : Str) : Tokenize.tokenize src = scan src :=
+  Tokenize.tokenize_eq_scan src
+
+/-- hence the tokenizer never panics (none of its three slice sites can fail): it returns tokens or `Lex` -/
+theorem C08_tokenize_total (src : Str) :
+    (∃ ts, Tokenize.tokenize src = .ok ts) ∨ (∃ j c, Tokenize.tokenize src = .err (.lex j c)) := by
+  rw [C08_tokenize_eq_spec]
+  exact C08_scan_total src.length src 0 (Nat.le_refl _)
+
 end KikiVerif.C08
 
 #print axioms KikiVerif.C08.C08_scan_total
+#print axioms KikiVerif.C08.C08_double_colon
+#print axioms KikiVerif.C08.C08_tokenize_eq_spec
+#print axioms KikiVerif.C08.C08_tokenize_total
